@@ -44,6 +44,12 @@ def count_kinds(x, acc):
             count_kinds(v, acc)
 
 
+def all_xsl(cdir):
+    """main.xsl, followed by the imported modules (each introduced by a comment naming its file)"""
+    fs = sorted(f for f in os.listdir(cdir) if f.endswith(".xsl") and f != "main.xsl")
+    return open(os.path.join(cdir, "main.xsl")).read() + "".join("<!-- ===== %s ===== -->\n%s" % (f, open(os.path.join(cdir, f)).read()) for f in fs)
+
+
 def run(res, tier, seed):
     rng = random.Random(seed)
     quick = tier == "quick"
@@ -58,11 +64,14 @@ def run(res, tier, seed):
             ss = xslgen.scoping_stylesheet(rng)       # the scoping family (see tools/xslgen.py)
         elif k % 10 == 3:
             ss = xslgen.sorting_stylesheet(rng)       # the sorting family
+        elif k % 10 == 7:
+            ss = xslgen.imports_stylesheet(rng)       # the imports family (import tree, apply-imports, named template overriding)
         else:
             ss = xslgen.XslGen(rng).stylesheet()
         d = rng.randrange(len(docs))
         cdir = os.path.join(wd, "case%d" % k); os.makedirs(cdir)
-        open(os.path.join(cdir, "main.xsl"), "w").write(xslgen.render(ss))
+        for fname, text in xslgen.render_modules(ss).items():
+            open(os.path.join(cdir, fname), "w").write(text)
         open(os.path.join(cdir, "in.xml"), "w").write(c02.doc_xml(docs[d]))
         cases.append({"id": k, "dir": cdir, "trace": "none", "select": False})
         metas.append((ss, d))
@@ -86,7 +95,7 @@ def run(res, tier, seed):
         for c in ch:
             ss, d = metas[c["id"]]
             dn = dones.get(c["id"])
-            sample = {"xsl": open(os.path.join(c["dir"], "main.xsl")).read(), "xml": c02.doc_xml(docs[d])}
+            sample = {"xsl": all_xsl(c["dir"]), "xml": c02.doc_xml(docs[d])}
             if dn is None:
                 if not died:
                     res.violation("transformation process died or hung (rc=%s): %s" % (p.returncode, (err or b"").decode()[-300:]), [sample])
@@ -107,7 +116,7 @@ def run(res, tier, seed):
                 res.known(known[k])
         else:
             res.violation("status %s %s | %s" % (ev["status"], ev["msg"][:100], rj["msg"][:300]),
-                          [dict(ev, xsl=open(os.path.join(cdir, "main.xsl")).read(), xml=open(os.path.join(cdir, "in.xml")).read(), flatdoc=flats[ev["doc"] - 1])])
+                          [dict(ev, xsl=all_xsl(cdir), xml=open(os.path.join(cdir, "in.xml")).read(), flatdoc=flats[ev["doc"] - 1])])
     res.notes["dropped_unjudged"] = st["dropped"]
     rejected = {rj["line"] for rj in rejects}
     res.cov["traces_validated_against_impl"] = len(events) - len(rejects) - st["dropped"]
@@ -122,12 +131,13 @@ def run(res, tier, seed):
     res.cov["rule"] = ("seeded stylesheets: 1-5 match templates (14-pattern pool, 2 modes, priorities, params) + 0-2 named templates + the root template, 0-2 global variables, bodies nested "
                        "to depth 3 over the instruction kinds listed in instruction_kinds_generated, expressions from the typed XPath generator with the variables in scope; documents "
                        "from the XPath corpus; every 5th stylesheet from the scoping family (call-template / apply-templates with and without with-param under if/choose/for-each/"
-                       "literal elements, same-named caller variables), every 10th from the sorting family (1-3 tie-prone sort keys, mixed order and data-type, position()/last() printed); non-trivial = at least 5 different instruction kinds in the stylesheet and a non-trivial result tree; distinct by (stylesheet, document). "
+                       "literal elements, same-named caller variables), every 10th from the sorting family (1-3 tie-prone sort keys, mixed order and data-type, position()/last() printed), every 10th from the imports family "
+                       "(import tree of four modules, rules with overlapping patterns/modes/priorities, xsl:apply-imports, a named template defined in several modules); non-trivial = at least 5 different instruction kinds in the stylesheet and a non-trivial result tree; distinct by (stylesheet, document). "
                        "Cases whose definition value involves a number outside the model or a dynamic error are not judged (counted in dropped_unjudged)")
     for ev in events[:2]:
         cdir = cases[ev["sample"]]["dir"]
-        res.sample({"xsl": open(os.path.join(cdir, "main.xsl")).read(), "doc": ev["doc"], "tree": ev["tree"]})
-    res.assumptions += ["XSLTSem v1 has no namespaces in result names (C14), no xsl:number (C17), keys (C15), document(), format-number, output escaping control, imports (C10)",
+        res.sample({"xsl": all_xsl(cdir), "doc": ev["doc"], "tree": ev["tree"]})
+    res.assumptions += ["XSLTSem has no namespaces in result names (C14), no xsl:number value= (C17), no document(), format-number, output escaping control; global variables, keys and space declarations only in the principal module",
                         "the result tree is compared as a canonical tree: adjacent text merged, attributes as a set, xmlns attributes ignored"]
 
 
